@@ -289,9 +289,10 @@ theorem table_valid_any_header (cfg : ReadCfg) (hd : Header) (op : Opts) (sk : S
     ∃ r, readBack cfg (writeH hd op sk (sortByDepth sk.nodes)) = some r ∧ swcValidB r.nodes = true :=
   ⟨_, readBack_writeH cfg hd op sk _ h, table_valid op sk hw⟩
 
-/-- A header line that is not a comment is read as data: a header whose first line has fewer than seven fields (e.g.
-`header="no hash"`, written verbatim by navis — open finding `write_swc/custom-header/line-without-comment-prefix`)
-makes the file unreadable.  This is why `noRows` is a hypothesis above. -/
+/-- HISTORICAL (finding `write_swc/custom-header/line-without-comment-prefix`, fixed).  A header line that is not a comment
+is read as data: a header whose first line has fewer than seven fields (e.g. `header="no hash"`, which navis used to write
+verbatim) makes the file unreadable.  This is why `noRows` is a hypothesis of the token-level theorems above; on the character
+level `header_text_lines_ok` shows that the header navis writes now never contains such a line. -/
 theorem header_line_without_hash_breaks (ts : List Tok) (hts : ts.length < 7) (rest : List Line) :
     parseSwc (.row ts :: rest) = none := by
   unfold parseSwc
@@ -308,20 +309,26 @@ theorem header_line_without_hash_breaks (ts : List Tok) (hts : ts.length < 7) (r
 theorem eolPre_no_nl : '\n' ∉ eolPre := by decide
 
 /-- **Lines of the written text.**  With the newline-termination branch of `_write_swc` (translator fact
-`Gen.Swc.headerTerminated`, see `gen_header_terminated`) the text cut at `\n` is: the lines of the (terminated) header
-string, then one line per row — *for every header string whatsoever*. -/
+`Gen.Swc.headerTerminated`, see `gen_header_terminated`) the text cut at `\n` is: the lines of the header text (the user's
+string with its non-comment lines turned into comments, newline-terminated), then one line per row — *for every header string
+whatsoever*. -/
 theorem written_text_lines (h : List Char) (rows : List (List Char)) (hrows : ∀ r ∈ rows, '\n' ∉ r) :
-    lines (assemble h rows) = lines (terminate h) ++ rows.map (· ++ eolPre) := by
-  unfold assemble
-  exact lines_terminated_rows eolPre eolPre_no_nl _ (terminateIf_true_ends h) rows hrows
+    lines (assemble h rows) = lines (headerText h) ++ rows.map (· ++ eolPre) := by
+  unfold assemble headerText
+  exact lines_terminated_rows eolPre eolPre_no_nl _ (terminateIf_true_ends (commentise h)) rows hrows
 
-/-- **The reader skips exactly the header.**  If every line of the header string is a `#` line or blank, the lines
-`read_csv(skiprows=len(header_rows), comment="#")` parses are exactly the rendered rows (each starts with its PointNo as
-printed by `str(int)`), and `read_header_rows` returns the leading `#` lines of the header itself. -/
-theorem written_text_data_lines (h : List Char) (rows : List (Int × List Char))
-    (hh : ∀ l ∈ lines (terminate h), isHdr l = true ∨ isBlank l = true) (hrows : ∀ r ∈ rows, '\n' ∉ r.2) :
+/-- **Every line of the header `_write_swc` writes for a user supplied string is a comment or blank** — whatever the string
+(translator fact `Gen.Swc.headerCommentPrefix = "# "`: since the fix "write_swc turns lines of a custom header … into comments"
+a line that is neither is no longer written verbatim). -/
+theorem header_text_lines_ok (h : List Char) : ∀ l ∈ lines (headerText h), isHdr l = true ∨ isBlank l = true :=
+  commentised_lines_ok _ _ (by decide) (by decide) h
+
+/-- **The reader skips exactly the header, for every header string.**  The lines `read_csv(skiprows=len(header_rows),
+comment="#")` parses are exactly the rendered rows (each starts with its PointNo as printed by `str(int)`), and
+`read_header_rows` returns the leading `#` lines of the header text itself. -/
+theorem written_text_data_lines (h : List Char) (rows : List (Int × List Char)) (hrows : ∀ r ∈ rows, '\n' ∉ r.2) :
     dataLines (lines (assemble h (rows.map fun r => rowLine r.1 r.2))) = rows.map (fun r => rowLine r.1 r.2 ++ eolPre) ∧
-    hdrRows (lines (assemble h (rows.map fun r => rowLine r.1 r.2))) = hdrRows (lines (terminate h)) := by
+    hdrRows (lines (assemble h (rows.map fun r => rowLine r.1 r.2))) = hdrRows (lines (headerText h)) := by
   have hnl : ∀ r ∈ rows.map (fun r => rowLine r.1 r.2), '\n' ∉ r := by
     intro r hr
     obtain ⟨q, hq, rfl⟩ := List.mem_map.mp hr
@@ -333,7 +340,7 @@ theorem written_text_data_lines (h : List Char) (rows : List (Int × List Char))
     refine ⟨isHdr_append_cr eolPre (isHdr_rowLine q.1 q.2) ?_, isBlank_append_cr eolPre (isBlank_rowLine q.1 q.2)⟩
     obtain ⟨c, r, hc, _⟩ := intChars_head q.1
     simp [rowLine, hc]
-  exact ⟨dataLines_header_rows _ _ hh hdat, hdrRows_header_rows _ _ (fun l hl => (hdat l hl).1)⟩
+  exact ⟨dataLines_header_rows _ _ (header_text_lines_ok h) hdat, hdrRows_header_rows _ _ (fun l hl => (hdat l hl).1)⟩
 
 /-- **Why the branch is needed** (the behaviour of `_write_swc` without `elif not header.endswith("\n"): header += "\n"`).
 For a header whose last line `last` is a `#` line without a final line break, the first row — the root, PointNo 1 — is glued
@@ -479,8 +486,10 @@ theorem gen_labels : Gen.Swc.readerSomaLabel = Gen.Swc.lblSoma ∧ Gen.Swc.reade
 theorem gen_meta : Gen.Swc.metaKeys = ["id", "name", "units"] ∧ Gen.Swc.metaPrefix = "# Meta: " := ⟨rfl, rfl⟩
 
 /-- `_write_swc` terminates a user supplied header with a line break (`if not header.endswith("\n"): header += "\n"` on the
-str path, before the file is written); the header is written before the rows.  `written_text_lines` rests on this fact. -/
-theorem gen_header_terminated : Gen.Swc.headerTerminated = true ∧ Gen.Swc.writeOrder = ["header", "rows"] := ⟨rfl, rfl⟩
+str path, before the file is written) after putting the comment character and a blank in front of every line that is neither a
+comment nor blank; the header is written before the rows.  `written_text_lines` / `header_text_lines_ok` rest on these facts. -/
+theorem gen_header_terminated : Gen.Swc.headerTerminated = true ∧ Gen.Swc.writeOrder = ["header", "rows"] ∧
+    Gen.Swc.headerCommentPrefix = Gen.Swc.commentChar ++ " " := ⟨rfl, rfl, rfl⟩
 
 /-- Every line of the generated header is a comment line, every piece ends with a line break, the Meta line starts with
 the prefix the reader looks for and is only written on the generated-header path (`write_meta` is ignored otherwise). -/
@@ -512,6 +521,26 @@ theorem gen_precision : Gen.Swc.precisionTable = [(16, "int16", "float16"), (32,
     Gen.Swc.defaultPrecision = 32 ∧ Gen.Swc.readPrecisionDefault = 32 ∧
     Gen.Swc.columnDtypeKind = [("node_id", "int_"), ("parent_id", "int_"), ("label", "category"), ("x", "float_"), ("y", "float_"),
       ("z", "float_"), ("radius", "float_")] := ⟨rfl, rfl, rfl, rfl⟩
+
+/-- **IDs never wrap** (finding `read_swc/precision/id-exceeds-int-range`, fixed): whatever `precision` is requested, the integer
+width chosen for `node_id` / `parent_id` holds every id of the table (ids a 64-bit integer can hold at all) … -/
+theorem id_width_holds (p : Nat) (lo hi : Int) (h : fitsBits 64 lo hi = true) : fitsBits (idBits p lo hi) lo hi = true := by
+  unfold idBits Gen.Swc.idWidening
+  simp only [List.find?_cons, List.find?_nil]
+  cases h1 : fitsBits p lo hi with
+  | true => simpa using h1
+  | false =>
+    cases h2 : fitsBits 32 lo hi with
+    | true => simpa using h2
+    | false => simpa [h] using h
+
+/-- … and it is the requested width whenever that is enough (`precision` is honoured for every table it can represent). -/
+theorem id_width_requested (p : Nat) (lo hi : Int) (h : fitsBits p lo hi = true) : idBits p lo hi = p := by
+  unfold idBits
+  simp [List.find?_cons, h]
+
+/-- The widening candidates follow the requested width and end with 64 bits. -/
+theorem gen_id_widening : Gen.Swc.idWidening = [32, 64] ∧ Gen.Swc.idWideningStartsWithRequested = true := ⟨rfl, rfl⟩
 
 /-- `sanitise_nodes` drops a row exactly when one of the columns `parseRow` requires is missing. -/
 theorem gen_key_columns : Gen.Swc.keyColumns = ["node_id", "parent_id", "x", "y", "z"] := rfl
@@ -581,7 +610,12 @@ example : lines (assemble "# a".toList ["1 0".toList, "2 1".toList]) = ["# a".to
 example : dataLines (lines (assemble "# a".toList ["1 0".toList, "2 1".toList])) = ["1 0\r".toList, "2 1\r".toList] := by decide
 example : dataLines (lines (assembleRaw "# a".toList ["1 0".toList, "2 1".toList])) = ["2 1\r".toList] := by decide
 example : lines (assemble [] ["1 0".toList]) = [[], "1 0\r".toList] := by decide
+-- lines without `#` become comments, blank lines stay, a line of blanks becomes a comment
+example : headerText "no hash".toList = "# no hash\n".toList := by decide
+example : headerText "# a\n\n   \nx".toList = "# a\n\n#    \n# x\n".toList := by decide
+example : dataLines (lines (assemble "no hash".toList ["1 0".toList, "2 1".toList])) = ["1 0\r".toList, "2 1\r".toList] := by decide
 example : intChars (-1) = "-1".toList ∧ intChars 0 = "0".toList ∧ intChars 4294967301 = "4294967301".toList := by decide
+example : idBits 16 (-1) 33000 = 32 ∧ idBits 32 (-1) (2 ^ 31 + 5) = 64 ∧ idBits 16 (-1) 7 = 16 ∧ idBits 64 (-1) 7 = 64 := by decide
 example : lexInt? "+12".toList = some 12 ∧ lexInt? "1.0".toList = none ∧ lexInt? "-".toList = none := by decide
 
 -- as written: the rerooted chain (rows child-first: every walk of `_node_depths` runs to the root) and the demo forest
